@@ -7,7 +7,8 @@ plan, and records - through the public builder.time interface - event.index / ev
 event, clock(), step_size(), simulant_next_event_times() and simulant_step_sizes() of the whole population at every
 event and after every step, and every value the modifiers returned.  Streams:
 
-  clock    the per-simulant clock driven by run() / manual step() / InteractiveContext.take_steps(k[, step_size]):
+  clock    the per-simulant clock driven by run() / manual step() / InteractiveContext.take_steps(k[, step_size]) /
+           InteractiveContext.run_for / run_until / run (returned step counts compared too), with untracking:
            model trace (Clock.check_clock, evaluated by Coq) == observed trace, exactly, in integer ns; the direct oracle
            evaluates the property (post-processor spec, invariant, hits-earliest, active-exact, never-passed,
            included-advances, moved-to-end) on the observed trace alone
@@ -33,9 +34,11 @@ CLAIM = {
             "clock lands exactly on the earliest pending time; each event index is exactly {i | next_i = T+S}; no time is "
             "passed; included simulants advance by their new step, others are untouched; simulants moved to the end sit "
             "at stop+minimum and are in no event at or before the stop time; InteractiveContext.step without override is "
-            "the plain step. The model is tied to /repo/src by exact integer-ns comparison (decided by Coq vm_compute) of "
+            "the plain step; run_until/run_for/run stop at the first boundary at or after the end time and return the step "
+            "count; untracked simulants never influence the schedule (any history = the same history with untracking "
+            "erased) and are in events like everybody else. The model is tied to /repo/src by exact integer-ns comparison (decided by Coq vm_compute) of "
             "event indexes, clock, global step and both clock columns after every step of generated runs on real contexts "
-            "(both clock plugins, three drivers, births, snoozes, overrides), plus a direct python oracle of the property.",
+            "(both clock plugins, four drivers, births, snoozes, untracking, overrides), plus a direct python oracle of the property.",
     "note": "Trusted: the hand transcription of time.py/engine.step/InteractiveContext.step into Clock.v (validated on the "
             "sampled traces only), the probe/recording harness, pandas float division of step sizes being exact on whole "
             "6-hour units below 2^53 ns, int64 range. Requests are assumed non-negative; a step taken with a pending "
@@ -48,8 +51,9 @@ RULE = ("clock: one case = one real context (DateTimeClock 70% / SimpleClock 30%
         "standard step absent / multiple / non-multiple / below minimum; population 0, 1, 2-30; 1-3 modifiers of kind "
         "const / by-label / by-time / table with NaN share 0-60% and partial-index returns; per-step plan of births "
         "(any of the 4 events), move-to-end requests (all / {0} / residue class / first / last of the event index; "
-        "rarely a simulant that is not due), overrides and chunk sizes; drivers run / step / take_steps; 0-2 steps "
-        "beyond the stop time). distinct = distinct case; trivial = no step was taken. post: 1-6 labels x 3 modifiers, "
+        "rarely a simulant that is not due), untracking, overrides and chunk sizes; drivers run / step / take_steps / "
+        "run_until (run_for, run_until, run with spans 0, past, <, =, > the minimum step; ends capped at the stop time); 0-2 "
+        "steps beyond the stop time). distinct = distinct case; trivial = no step was taken. post: 1-6 labels x 3 modifiers, "
         "values from {NaN, 0, <minimum, k*minimum, k*minimum-+1, arbitrary}. global: populations 0-12, births")
 ASSUMPTIONS = [
     "all generated times and step sizes are whole multiples of 6 hours (0.25 for SimpleClock) and stay below 2^53 ns, so "
@@ -60,9 +64,11 @@ ASSUMPTIONS = [
     "code (F-I): modelled as Rejected, the theorems exclude it",
 ]
 TRUSTED = [
-    "C10 harness reads the whole population's labels through context.get_population(untracked=True).index and everything "
-    "else through builder.time / builder.event / builder.population public interfaces; the initial global step is "
-    "read with builder.time.step_size() in a post_setup listener",
+    "C10 harness reads no private attribute of /repo/src: the whole population's labels come from "
+    "context.get_population(untracked=True).index, tracked flags from a population view on ['tracked'], everything else "
+    "from builder.time / builder.event / builder.population / builder.value; the initial global step is read with "
+    "builder.time.step_size() in a post_setup listener; a refused zero step is recognised by exception class + observed "
+    "zero step, not by message text",
 ]
 
 UNIT_NS = 6 * 3600 * 10 ** 9
@@ -102,6 +108,9 @@ class Units:
 
     def q_int(self, q):            # units -> the integer Coq sees
         return q * self.scale
+
+    def add(self, t, q):           # implementation time + q units (q may be 0 or negative)
+        return t + (self.pd.Timedelta(hours=6 * q) if self.kind == "dt" else q / 4.0)
 
 
 def config_for(case):
@@ -166,6 +175,7 @@ def make_probe(case, u):
             self.post_setup = None
             self.fresh = None
             self.untracked = 0
+            self.calls_log = None           # run_until driver: [end time, returned step count] per call
 
         # -- set-up ------------------------------------------------------------------------------------------
         def setup(self, builder):
@@ -218,8 +228,10 @@ def make_probe(case, u):
             idx = self.sim.get_population(untracked=True).index
             nxt, stp = self.net(idx), self.sss(idx)
             assert list(nxt.index) == list(idx) and list(stp.index) == list(idx)
+            trk = self.tracked_view.get(idx)["tracked"]
             return {"T": u.time_int(self.clock()), "S": self.gstep_int(),
-                    "rows": [[int(l), u.time_int(n), u.delta_int(s)] for l, n, s in zip(idx, nxt, stp)]}
+                    "rows": [[int(l), u.time_int(n), u.delta_int(s)] for l, n, s in zip(idx, nxt, stp)],
+                    "untracked": [int(l) for l, t in zip(trk.index, trk) if not bool(t)]}
 
         def _listener(self, k):
             def listen(event):
@@ -248,6 +260,7 @@ def make_probe(case, u):
                     self.move_to_end(pd.Index(one, dtype="int64") if one else pd.Index([]))
                     sn += one
                 ut = plan.get("untrack")
+                sel = []
                 if ut and ut["phase"] == k:      # untracked simulants are treated like everybody else by the clock
                     sel = self.select(ut, rec["idx"][-1], [r[0] for r in rec["cols"][-1]])
                     if sel:
@@ -258,7 +271,7 @@ def make_probe(case, u):
                 b = plan["births"][k]
                 if b:
                     self.creator(b, {"sim_state": "time_step"})
-                rec["acts"].append([b, sn])
+                rec["acts"].append([b, sn, sel])
                 if b or rules:
                     self.fresh = None
                 if k == 3:
@@ -300,14 +313,14 @@ def drive(case, u):
     probe = make_probe(case, u)
     cfg, plug = config_for(case)
     driver = case["driver"]
-    if driver == "take_steps":
+    if driver in ("take_steps", "run_until"):
         sim = InteractiveContext(components=[probe], configuration=cfg, plugin_configuration=plug, setup=False,
                                  logging_verbosity=0)
     else:
         sim = SimulationContext(components=[probe], configuration=cfg, plugin_configuration=plug, logging_verbosity=0)
     probe.sim = sim
     boot.quiet_logging()
-    if driver == "take_steps":
+    if driver in ("take_steps", "run_until"):
         sim.setup()                       # InteractiveContext.setup also creates the population
     else:
         sim.setup()
@@ -322,18 +335,49 @@ def drive(case, u):
         if driver == "run":
             sim.run()
         elif driver == "step":
-            extra = case.get("overshoot", 0)
-            while (now() < stop or extra > 0) and probe.step_id <= MAX_STEPS:
-                if now() >= stop:
+            extra, reached = case.get("overshoot", 0), False
+            while probe.step_id <= MAX_STEPS:
+                reached = reached or now() >= stop      # (past the stop time the clock may move backwards: R4)
+                if reached:
+                    if extra <= 0:
+                        break
                     extra -= 1
                 sim.step()
+        elif driver == "run_until":
+            # InteractiveContext.run_for / run_until / run: `while clock.time < end: step()`; returns the step count
+            probe.calls_log = []
+            spans = case.get("spans") or [4]
+            i = 0
+            while now() < stop and probe.step_id <= MAX_STEPS and i < 200:
+                kind, q = spans[i % len(spans)]
+                i += 1
+                t_now = now()
+                # end times stay at or before the stop time: beyond stop + minimum a parked simulant's step
+                # (stop + minimum - time) is <= 0 and the real clock stalls or runs backwards (robustness note R4)
+                q = min(q, (stop - t_now) // u.scale)
+                if kind == "run":
+                    end = stop
+                    probe.calls_log.append([end, None])
+                    n = sim.run(with_logging=False)
+                elif kind == "for":
+                    end = t_now + u.q_int(q)
+                    probe.calls_log.append([end, None])
+                    n = sim.run_for(u.delta(q), with_logging=False)
+                else:
+                    end = t_now + u.q_int(q)
+                    probe.calls_log.append([end, None])
+                    n = sim.run_until(u.add(probe.clock(), q), with_logging=False)
+                probe.calls_log[-1][1] = int(n)
         else:
-            extra = case.get("overshoot", 0)
-            while (now() < stop or extra > 0) and probe.step_id <= MAX_STEPS:
-                if now() >= stop:
+            extra, reached = case.get("overshoot", 0), False
+            while probe.step_id <= MAX_STEPS:
+                reached = reached or now() >= stop
+                if reached:
+                    if extra <= 0:
+                        break
                     extra -= 1
                 plan = case["plan"][len(probe.records) % len(case["plan"])]
-                k = plan.get("chunk", 1) if now() < stop else 1
+                k = plan.get("chunk", 1) if not reached else 1
                 ovr = plan.get("ovr")
                 probe.cur_ovr = ovr
                 n_before = len(probe.records)
@@ -364,7 +408,7 @@ def cq(n):
 
 
 def c_state(s):
-    return cpair(cq(s["T"]), cq(s["S"]), clist(cpair(cz(l), cq(n), cq(st)) for l, n, st in s["rows"]))
+    return cpair(cq(s["T"]), cq(s["S"]), clist(cpair(cz(l), cq(n), cq(st)) for l, n, st in s["rows"]), czlist(s["untracked"]))
 
 
 def req_table(probe, step_id, u):
@@ -397,7 +441,8 @@ def run_clock(case):
     final = None
     raised_new = False
     if err is not None:
-        if isinstance(err, ValueError) and "Step size cannot be equal to zero" in str(err) and (not recs or "cols_end" in recs[-1]):
+        # (recognised by class and by the zero global step, not by the message text)
+        if isinstance(err, ValueError) and probe.gstep_int() == 0 and (not recs or "cols_end" in recs[-1]):
             raised_new = True           # a new step refused at its very start (zero global step)
         elif recs:
             recs[-1]["raised"] = f"{type(err).__name__}: {err}"[:200]
@@ -417,7 +462,7 @@ def run_clock(case):
     steps = []
     for i, r in enumerate(recs):
         sid = i + 1
-        sin = cpair(copt(r["ovr"], lambda q: cq(u.q_int(q))), clist(cpair(cnat(b), czlist(sn)) for b, sn in r["acts"]),
+        sin = cpair(copt(r["ovr"], lambda q: cq(u.q_int(q))), clist(cpair(cnat(b), czlist(sn), czlist(ut)) for b, sn, ut in r["acts"]),
                     c_table(req_table(probe, sid, u), u))
         if r["raised"]:
             steps.append(cpair(sin, "None"))
@@ -428,13 +473,16 @@ def run_clock(case):
         steps.append(cpair(cpair("None", "[]", "[]"), "None"))
     coq = cpair(cbool(u.kind == "simple"), cq(t0), cq(stop), cq(m), cq(std), cq(s0), cnat(case["pop"]),
                 c_table(req_table(probe, 0, u), u),
-                c_state(init), clist(steps))
+                c_state(init), clist(steps),
+                "None" if probe.calls_log is None else
+                "(Some " + clist(cpair(cq(e), cnat(n if n is not None else 4999)) for e, n in probe.calls_log) + ")")
+    coq = f"({coq} : clock_case)"        # the expected type settles the implicit arguments of empty lists / None
     pop_end = len(snaps[-1]["rows"]) if snaps[-1] else 0
     tags = [case["clock"], case["driver"], f"pop{_bucket(case['pop'])}", f"mods{len(case['mods'])}",
             f"steps{_bucket(len(recs))}"]
-    if any(b for r in recs for b, _ in r["acts"]):
+    if any(a[0] for r in recs for a in r["acts"]):
         tags.append("births")
-    if any(sn for r in recs for _, sn in r["acts"]):
+    if any(a[1] for r in recs for a in r["acts"]):
         tags.append("snooze")
     if any(r["ovr"] is not None for r in recs):
         tags.append("override")
@@ -596,6 +644,27 @@ def oracle(case, u, probe, recs, snaps, m, std, stop, t0, s0, err, raised_new):
             inv = False
     if err is not None and not raised_new and not (recs and recs[-1]["raised"]):
         return fail(f"driver raised {type(err).__name__}: {err}")
+    # tracked flags: exactly the simulants the probe untracked, and they stayed in the schedule (checked above: event
+    # indexes are computed over the whole population, untracked simulants included)
+    gone = set()
+    for i, r in enumerate(recs):
+        for a in r["acts"]:
+            gone |= set(a[2])
+        if i + 1 < len(snaps) and snaps[i + 1] is not None and snaps[i + 1]["untracked"] != sorted(gone):
+            return fail(f"step {i + 1}: untracked simulants {snaps[i + 1]['untracked']} != those untracked so far {sorted(gone)}")
+    # run_for / run_until / run: steps are taken while clock < end, the count is returned, the clock ends at or after end
+    if probe.calls_log is not None and err is None:
+        i = 0
+        for end, n in probe.calls_log:
+            k = 0
+            while i < len(recs) and snaps[i]["T"] < end:
+                i, k = i + 1, k + 1
+            if n != k:
+                return fail(f"run_until({end}) returned {n} but {k} steps start before the end time")
+            if snaps[i]["T"] < end:
+                return fail(f"run_until({end}) returned at clock {snaps[i]['T']}")
+        if i != len(recs):
+            return fail(f"{len(recs) - i} steps were taken after the end time of the last run_until call")
     if raised_new and snaps[-1] and snaps[-1]["S"] != 0:
         return fail("step refused with a non-zero global step")
     if case["driver"] == "run" and err is None and snaps[-1] and snaps[-1]["T"] < stop:
@@ -662,15 +731,121 @@ def gen_clock(rng):
     m = rng.choice([1, 2, 3, 4, 4, 4, 4, 6, 8, 12])
     r = rng.random()
     std = None if r < 0.35 else m * rng.randint(1, 4) if r < 0.6 else rng.randint(1, 5 * m)
-    driver = rng.choice(["run", "step", "take_steps"])
+    driver = rng.choice(["run", "step", "take_steps", "run_until"])
     len_days = rng.randint(1, max(2, min(30, 8 * m // 4 + 3)))
     pop = rng.choice([0, 1, 1, 1, 2, 2, 3, 4, 5, 7, 10, 15, 22, 30])
     mods = [gen_mod(rng, m, std) for _ in range(rng.choice([1, 1, 2, 2, 3]))]
     case = {"clock": kind, "driver": driver, "m": m, "std": std, "start_day": rng.choice([0, 0, 3, 30, 183]),
             "len_days": len_days, "pop": pop, "mods": mods, "plan": gen_plan(rng, m, driver)}
-    if driver != "run":
+    if driver == "run_until":
+        spans = []
+        for _ in range(rng.randint(1, 5)):
+            r = rng.random()
+            kind = "run" if r < 0.12 else "for" if r < 0.55 else "until"
+            q = rng.choice([0, 1, m - 1, m, m + 1, 2 * m, 3 * m + 1, rng.randint(1, 8 * m)]) if rng.random() < 0.9 else -rng.randint(1, 4)
+            spans.append([kind, q if kind != "for" else max(q, 0)])
+        if all(q <= 0 for k, q in spans if k != "run"):
+            spans.append(["for", 2 * m])
+        case["spans"] = spans
+    elif driver != "run":
         case["overshoot"] = rng.choice([0, 0, 0, 1, 2])
     return case
+
+
+def shrink_clock(case):
+    """Smaller variants of a clock case: fewer modifiers / simulants / days, quiet steps, simpler tables and drivers."""
+    import copy
+    quiet = {"births": [0, 0, 0, 0]}
+
+    def variant(**kw):
+        c = copy.deepcopy(case)
+        c.update(kw)
+        return c
+    if len(case["mods"]) > 1:
+        for j in range(len(case["mods"])):
+            yield variant(mods=case["mods"][:j] + case["mods"][j + 1:])
+    if case["pop"] > 1:
+        yield variant(pop=case["pop"] // 2)
+        yield variant(pop=case["pop"] - 1)
+    if case["len_days"] > 1:
+        yield variant(len_days=max(1, case["len_days"] // 2))
+        yield variant(len_days=case["len_days"] - 1)
+    if case.get("overshoot"):
+        yield variant(overshoot=0)
+    if any(p != quiet for p in case["plan"]):
+        yield variant(plan=[quiet])
+    if len(case["plan"]) > 1:
+        yield variant(plan=case["plan"][:len(case["plan"]) // 2])
+        for i in range(len(case["plan"])):
+            if case["plan"][i] != quiet:
+                c = copy.deepcopy(case)
+                c["plan"][i] = dict(quiet)
+                yield c
+    for i, p in enumerate(case["plan"]):
+        for key in ("snooze", "untrack", "ovr", "chunk"):
+            if key in p:
+                c = copy.deepcopy(case)
+                del c["plan"][i][key]
+                yield c
+        if any(p["births"]):
+            c = copy.deepcopy(case)
+            c["plan"][i]["births"] = [0, 0, 0, 0]
+            yield c
+    for j, md in enumerate(case["mods"]):
+        if md["kind"] != "const":
+            c = copy.deepcopy(case)
+            c["mods"][j]["kind"] = "by_label" if md["kind"] == "table" else "const"
+            yield c
+        if md["p_none"] or md["subset"]:
+            c = copy.deepcopy(case)
+            c["mods"][j].update(p_none=0.0, subset=False)
+            yield c
+        if len(md["palette"]) > 1:
+            for i in range(len(md["palette"])):
+                c = copy.deepcopy(case)
+                del c["mods"][j]["palette"][i]
+                yield c
+    if case["driver"] == "run_until" and len(case.get("spans", [])) > 1:
+        for i in range(len(case["spans"])):
+            c = copy.deepcopy(case)
+            del c["spans"][i]
+            yield c
+    if case["driver"] != "run":
+        c = variant(driver="run")
+        c.pop("spans", None)
+        c.pop("overshoot", None)
+        yield c
+    if case.get("std") is not None:
+        yield variant(std=None)
+    if case["start_day"]:
+        yield variant(start_day=0)
+
+
+def shrink_post(case):
+    import copy
+    n = len(case["values"][0])
+    for l in range(n):
+        if n > 1:
+            c = copy.deepcopy(case)
+            c["values"] = [col[:l] + col[l + 1:] for col in case["values"]]
+            yield c
+    for j in range(3):
+        for l in range(n):
+            if case["values"][j][l] is not None:
+                c = copy.deepcopy(case)
+                c["values"][j][l] = None
+                yield c
+
+
+def shrink_global(case):
+    import copy
+    quiet = {"births": [0, 0, 0, 0]}
+    if case["pop"] > 0:
+        c = copy.deepcopy(case); c["pop"] = case["pop"] // 2; yield c
+    if case["len_days"] > 1:
+        c = copy.deepcopy(case); c["len_days"] = case["len_days"] - 1; yield c
+    if any(p != quiet for p in case["plan"]):
+        c = copy.deepcopy(case); c["plan"] = [quiet]; yield c
 
 
 def corpus_clock():
@@ -696,6 +871,14 @@ def corpus_clock():
                 "plan": quiet * 2 + [{"births": [0, 0, 0, 0], "snooze": {"phase": 0, "kind": "all", "a": 2, "b": 0}}] + quiet * 30})
     out.append({"clock": "dt", "driver": "step", "m": 4, "std": 8, "start_day": 0, "len_days": 9, "pop": 5, "mods": [two_three],
                 "plan": quiet + [{"births": [0, 0, 0, 0], "snooze": {"phase": 2, "kind": "nondue", "a": 2, "b": 0}}] + quiet * 30})
+    # run_for / run_until / run under per-simulant clocks (F-AB: the old run_until took a precomputed number of steps)
+    for clock in ("dt", "simple"):
+        out.append({"clock": clock, "driver": "run_until", "m": 4, "std": None, "start_day": 0, "len_days": 14, "pop": 2,
+                    "mods": [two_three], "plan": quiet, "spans": [["for", 20], ["until", 9], ["until", 0], ["for", 0], ["run", 0]]})
+    out.append({"clock": "dt", "driver": "run_until", "m": 4, "std": 12, "start_day": 0, "len_days": 12, "pop": 5, "mods": [two_three],
+                "plan": [{"births": [0, 1, 0, 0], "untrack": {"phase": 0, "kind": "first", "a": 2, "b": 0}},
+                         {"births": [0, 0, 0, 0], "snooze": {"phase": 1, "kind": "last", "a": 2, "b": 0}}] + quiet * 2,
+                "spans": [["until", 13], ["until", -2], ["for", 6]]})
     # two move-to-end requests before one update: both are honoured
     out.append({"clock": "dt", "driver": "run", "m": 4, "std": None, "start_day": 0, "len_days": 12, "pop": 4,
                 "mods": [three], "plan": [{"births": [0, 0, 0, 0], "snooze": [{"phase": 0, "kind": "first", "a": 2, "b": 0},
@@ -866,7 +1049,7 @@ def run_global(case):
                 ok, msg = False, f"step {i + 1} event {j}: event time/step"
         if post["T"] != et or post["S"] != pre["S"]:
             ok, msg = False, f"step {i + 1}: clock {post['T']} step {post['S']} after the step, expected {et} / {pre['S']}"
-        steps.append(cpair(clist(cnat(b) for b, _ in r["acts"]),
+        steps.append(cpair(clist(cnat(a[0]) for a in r["acts"]),
                            cpair(cq(r["etime"][0]), czlist(len(ix) for ix in r["idx"]), cq(post["T"]), cq(post["S"]))))
     coq = cpair(cq(t0), cq(s0), cnat(case["pop"]), clist(steps))
     return Result(ok=ok, msg=msg, coq=coq, key=_key(case) if recs else None, obs={"n_steps": len(recs), "t0": t0, "s0": s0},
@@ -876,10 +1059,10 @@ def run_global(case):
 def streams(tier):
     return [
         Stream(name="clock", imports="From Viv Require Import Common Clock.", check="check_clock", gen=gen_clock,
-               run=run_clock, n_quick=110, n_thorough=1000, corpus=corpus_clock,
+               run=run_clock, n_quick=110, n_thorough=900, corpus=corpus_clock, shrink=shrink_clock,
                doc="per-simulant clocks on real contexts: trace == model trace; oracle = the property on the trace"),
         Stream(name="post", imports="From Viv Require Import Common Clock.", check="(forallb check_post)", gen=gen_post,
-               run=run_post, n_quick=250, n_thorough=4000, corpus=corpus_post),
+               run=run_post, n_quick=250, n_thorough=4000, corpus=corpus_post, shrink=shrink_post),
         Stream(name="global", imports="From Viv Require Import Common Clock.", check="check_global", gen=gen_global,
-               run=run_global, n_quick=25, n_thorough=250),
+               run=run_global, n_quick=25, n_thorough=250, shrink=shrink_global),
     ]
